@@ -23,6 +23,7 @@ RULE = (
     "pass: every event in every reachable state (complete graph); unmerged pass: every history up to the depth bound. "
     "Oracle: the snapshot equals the initial one in every state, and every event's canonical result equals the result "
     "of the same event on a fresh configuration. non-trivial = every transition (each is a use of the object)"
+    '. Added events: transforms without an initial request, default and override dry-runs, a client configured twice, an RSA-only session (check-in recovered twice, then a task), a generated profile that its holder modifies; configurations with index 36 as SHORT and with a duplicated index. '
 )
 ASSUMPTIONS = [
     "merging is sound because the snapshot covers every attribute of the object and is compared in every state",
